@@ -80,6 +80,8 @@ struct upipe_genaux {
     unsigned int max_urefs;
     /** list of blockers (used during urequest) */
     struct uchain blockers;
+    /** true while the held urefs are being output */
+    bool draining;
 
     /** get attr */
     int (*getattr) (struct uref *, uint64_t *);
@@ -180,8 +182,15 @@ static int upipe_genaux_check(struct upipe *upipe, struct uref *flow_format)
     if (upipe_genaux->flow_def == NULL)
         return UBASE_ERR_NONE;
 
+    /* a ubuf manager provided while a held flow definition is being handled:
+     * the loop below carries on with the next held urefs */
+    if (upipe_genaux->draining)
+        return UBASE_ERR_NONE;
+
     bool was_buffered = !upipe_genaux_check_input(upipe);
+    upipe_genaux->draining = true;
     upipe_genaux_output_input(upipe);
+    upipe_genaux->draining = false;
     upipe_genaux_unblock_input(upipe);
     if (was_buffered && upipe_genaux_check_input(upipe)) {
         /* All packets have been output, release again the pipe that has been
@@ -315,6 +324,7 @@ static struct upipe *upipe_genaux_alloc(struct upipe_mgr *mgr,
     upipe_genaux_init_ubuf_mgr(upipe);
     upipe_genaux_init_output(upipe);
     upipe_genaux_init_input(upipe);
+    upipe_genaux_from_upipe(upipe)->draining = false;
     upipe_genaux->getattr = uref_clock_get_cr_sys;
     upipe_throw_ready(upipe);
     return upipe;
